@@ -22,6 +22,12 @@ def main():
     t_fixed = "| found by | /repo commit | what failed on the tree before the repair |\n|---|---|---|\n" + "\n".join(fixed) + \
               "\n\n%d repairs." % len(fixed)
     finds = ["* **%s `%s`** — %s" % (f["property"], f["sig"], f["what"]) for f in k["findings"]]
+    sweep = {}
+    sp = V / "seeded" / "SWEEP.txt"
+    if sp.exists():
+        for l in sp.read_text().splitlines():
+            if ":" in l:
+                sweep[l.split(":", 1)[0].strip()] = l.split(":", 1)[1].strip()
     rows = []
     for d in sorted((V / "seeded").iterdir()):
         mp = d / "meta.json"
@@ -30,14 +36,15 @@ def main():
         m = json.load(open(mp))
         checks = m.get("checks") or {}
         det = "; ".join("%s: %s" % (c, v) for c, v in sorted(checks.items())) if isinstance(checks, dict) else str(checks)
-        rows.append("| %s | %s | %s | %s |" % (d.name, ", ".join(x.replace("src/vsc/", "") for x in m.get("files", [])),
-                                              (m.get("summary") or "").replace("|", "\\|").replace("\n", " ")[:330], det.replace("|", "\\|")))
-    t_seed = "| id | files | change (abridged) | result of my checks |\n|---|---|---|---|\n" + "\n".join(rows)
+        rows.append("| %s | %s | %s | %s | %s |" % (d.name, ", ".join(x.replace("src/vsc/", "") for x in m.get("files", [])),
+                                                   (m.get("summary") or "").replace("|", "\\|").replace("\n", " ")[:330], det.replace("|", "\\|"),
+                                                   sweep.get(d.name, "-").replace("|", "\\|")))
+    t_seed = "| id | files | change (abridged) | result of my checks | final sweep against /repo HEAD (check[rc, violations, known]) |\n|---|---|---|---|---|\n" + "\n".join(rows)
     # per-property status from the manifest and the evidence of the last runs
-    MODELS = {"C01": "Expr, Lower, Typing, BV, Solve", "C02": "Solve, Expr, Lower", "C03": "World, Solve", "C04": "Unroll (+Expr)",
+    MODELS = {"C01": "Expr, Lower, Typing, BV, Solve, Randset", "C02": "Solve, Expr, Lower, Randset", "C03": "World, Solve, Flags", "C04": "Unroll (+Expr)",
               "C05": "Soft, World", "C06": "Dyn", "C07": "World", "C08": "World", "C09": "Rnd", "C10": "Cov/Rangelist, Partition, Coverpoint",
               "C11": "Cov/Cross", "C12": "Cov/Covergroup", "C13": "Cov/Save", "C14": "Swizzle (+oracle)", "C15": "Select, Dist",
-              "C16": "Stacks", "C17": "World", "C18": "Val/Access (generated), Enum", "C19": "Cov/Wildcard", "C20": "Order"}
+              "C16": "Stacks, Flags", "C17": "World", "C18": "Val/Access (generated), Enum", "C19": "Cov/Wildcard", "C20": "Order"}
     man = json.load(open(V / "MANIFEST.json"))
     rows2 = []
     for c in man.get("checks", man.get("properties", [])):
